@@ -438,7 +438,7 @@ PROPERTY = {
     "level": "other",
     "explanation": "N and Sz act with the physical eigenvalues on every determinant and S^2 equals S_-S_+ + Sz^2 + Sz (exact rational matrices built from the AST of the "
                    "operator generators); penalties equal mu (O - v)^2 as polynomial matrices for EVERY weight and target; N, Sz, S^2 commute with every spin-free "
-                   "Hamiltonian (symbolic integrals, polynomial identities). Register size is bounded; conservation along the ansatz circuits is numerical (bounded).",
+                   "Hamiltonian (symbolic integrals, polynomial identities). Unbounded: the N / Sz / S^2 operator lists for EVERY number of orbitals (P1: range(n) over a symbolic n as cut loops on generic orbitals i, j; per-pair six-term pattern of s_i . s_j, injective spin-orbital maps), which with the exact two-orbital matrices (O3) gives N, Sz, S^2 for every register size. Exact matrices and commutation: bounded register size; conservation along the ansatz circuits (freshly built and along update histories): numerical (bounded).",
     "bounds": {"quick": "operator lists for <= 8 orbitals; exact matrices for 1-2 orbitals (4 spin-orbitals), both orderings; commutation for 2 orbitals (20 symbolic integrals)", "thorough": "3 orbitals"},
     "assumptions": ["openfermion normal_ordered / FermionOperator arithmetic executed natively with symbolic coefficients (assumed)", "encodings: through C03", "ansatz conservation: bounded numeric runs under Jordan-Wigner"],
     "trusted_base": ["tverif AST interpreter", "tverif.ring", "openfermion"],
